@@ -1,6 +1,8 @@
 package moq
 
 import (
+	"sync"
+
 	"github.com/bluenviron/mediamtx/internal/logger"
 	"github.com/bluenviron/mediamtx/internal/protocols/moq/reorderer"
 	"github.com/bluenviron/mediamtx/internal/protocols/moq/subgroup"
@@ -11,6 +13,7 @@ type inboundTrack struct {
 	parent     logger.Writer
 
 	reorderer *reorderer.Reorderer
+	mutex     sync.Mutex
 }
 
 func (t *inboundTrack) initialize() {
@@ -23,6 +26,11 @@ func (t *inboundTrack) initialize() {
 }
 
 func (t *inboundTrack) push(sg *subgroup.SubGroup) error {
+	// push is called by a routine for each stream (i.e. for each group);
+	// subgroups must be handed on in the order in which the reorderer returns them.
+	t.mutex.Lock()
+	defer t.mutex.Unlock()
+
 	sgs, err := t.reorderer.Push(sg)
 	if err != nil {
 		return err
